@@ -66,7 +66,8 @@ Concat2(ss) == IF Len(ss) = 0 THEN <<>> ELSE FoldLeft(LAMBDA a, b : a \o b, <<>>
 (* ------------------------------------------------------------------ encoding *)
 \* opts: [rev (reverse field order), pack ("decl" | "all" | "none"), dflt (emit implicit defaults explicitly),
 \*        mapswap (value before key in map entries), split (embedded message sent as two records)]
-O0 == [rev |-> FALSE, pack |-> "decl", dflt |-> FALSE, mapswap |-> FALSE, split |-> FALSE]
+\* unk: bytes of an unknown field a sender may place INSIDE every map entry (behind the key and behind the value)
+O0 == [rev |-> FALSE, pack |-> "decl", dflt |-> FALSE, mapswap |-> FALSE, split |-> FALSE, unk |-> <<>>]
 
 RECURSIVE EncMsg(_, _, _, _)
 RECURSIVE EncField(_, _, _, _)
@@ -95,7 +96,7 @@ EncField(D, f, x, o) ==
           vty == f.ty.map[2]
           ent(kv) == LET kb == KeyBytes(1, WtOfTy(kty)) \o EncVal(D, kty, kv[1], o)
                          vb == KeyBytes(2, WtOfTy(vty)) \o EncVal(D, vty, kv[2], o)
-                         body == IF o.mapswap THEN vb \o kb ELSE kb \o vb
+                         body == IF o.mapswap THEN vb \o o.unk \o kb \o o.unk ELSE kb \o o.unk \o vb \o o.unk
                      IN KeyBytes(f.tag, WT_LEN) \o LenPrefix(Len(body)) \o body
       IN Concat2([i \in 1..Len(x.kvs) |-> ent(x.kvs[i])])
   ELSE IF x.k = "msg" /\ o.split /\ Len(x.fs) >= 2 THEN
